@@ -38,7 +38,9 @@ def csvNormS : Value → Value
 
 /-! ### which inputs are unambiguous in CSV, and what they are expected to come back as -/
 
-def isUnknownMesg (n : Nat) : Bool := (mesgNames.lookup n).isNone
+/-- a message the CSV has no name for: an unlisted number, or a manufacturer specific one (≥ MfgRangeMin: written as
+unknown / unknown(N) since /repo 6c7d170, whatever `MesgNum.String()` says) -/
+def isUnknownMesg (n : Nat) : Bool := decide (n ≥ mfgRangeMin) || (mesgNames.lookup n).isNone
 def isUnknownField (m : Message) (f : Field) : Bool := (pfield m.num (fieldNumOf f)).isNone
 
 /-- the elements of a value with the flag "is a slice" -/
@@ -48,6 +50,10 @@ def elemsOf : Value → List Value × Bool
   | .sliceUint32 vs => (vs.map .uint32, true) | .sliceInt64 vs => (vs.map .int64, true) | .sliceUint64 vs => (vs.map .uint64, true)
   | .sliceFloat32 vs => (vs.map .float32, true) | .sliceFloat64 vs => (vs.map .float64, true) | .sliceString vs => (vs.map .string, true)
   | v => ([v], false)
+
+/-- what a value is expected to come back as: element by element (`packValues`: the reader's slice constructor) -/
+def csvNorm (v : Value) : Value :=
+  if (elemsOf v).2 then packValues ((elemsOf v).1.map csvNormS) else csvNormS v
 
 /-- a decoded value of a field with base type `bt`: scalars as `scalarOK`, arrays non-empty with such elements -/
 def valueOK (bt : Nat) (isBool : Bool) (v : Value) : Bool :=
@@ -66,39 +72,62 @@ def fieldOK (m : Message) (f : Field) : Bool :=
 /-- the field descriptions of ONE file, in order -/
 def descsOf (file : List Message) : List Desc := (file.filter (·.num == mnFieldDescription)).map descOf
 
+/-- no element occurs twice -/
+def nodupB {α : Type} [BEq α] : List α → Bool
+  | [] => true
+  | a :: as => !as.contains a && nodupB as
+
+/-- every sub-field name of the profile: a cell under such a name is a substituted native field for the reader only as
+long as no developer field carries the name -/
+def allSubNames : List Txt := profile.flatMap fun m => m.fields.flatMap fun p => p.subs.map fun s => txt s.name
+
+/-- the model looks at a field's number, base type, expanded flag and value only: the rest of `FieldBase` is at its
+default (what the driver parses; the converters take everything else from the factory) -/
+def plainField (f : Field) : Bool := f.base == some { num := fieldNumOf f, baseType := fieldBtOf f }
+
+/-- one field within scope: number a byte, the value what the decoder produces for the base type (`fieldOK`) and in the
+decoder's normal form (`csvNorm v = v`: a `typedef.Bool` is 0, 1 or invalid; a float is not a NaN other than the invalid
+value) -/
+def fieldScopeB (m : Message) (f : Field) : Bool :=
+  plainField f && decide (fieldNumOf f < 256) && fieldOK m f && csvNorm f.value == f.value
+
+/-- the property's own condition, as the decoder produces it: the fields flagged expanded are EXACTLY the fields that
+are the expansion target of a component of a field present in the same message — components of the field itself or of
+any of its sub-fields, which is what the reader's `removeExpandedComponents` looks at. (⇐: no written field is such a
+target, the property's "no field that is also the expansion target of another field present".) -/
+def targetsExact (m : Message) : Bool :=
+  let targets := m.fields.flatMap (targetsOf m.num)
+  m.fields.all fun f => f.isExpanded == targets.contains (fieldNumOf f)
+
+/-- one message within scope -/
+def mesgScopeB (m : Message) : Bool :=
+  decide (m.num < 65536) && m.fields.all (fieldScopeB m) && nodupB (m.fields.map fieldNumOf) && targetsExact m
+
+/-- one field description within scope: name non-empty, not "unknown…", not the name of a sub-field of the profile
+(names unique also against the native names), name and units within the alphabet the writer keeps (`|` joins the parts
+of a name; separators and spaces are fine: `writeCell` quotes the cell — KF-C19-2, `C19_csv_quoting_roundtrip`) -/
+def descScopeB (d : Desc) : Bool :=
+  !d.name.isEmpty && !isPrefixOf' unknownTxt d.name && !allSubNames.contains d.name && d.name.all keepByte && d.units.all keepByte
+
+/-- a developer field of message `m`, the descriptions `cur` of the SAME file seen so far: described there, the name not
+that of a native field of the message, the value of the described base type and in normal form -/
+def devFieldScopeB (cur : List Desc) (m : Message) (dv : DevField) : Bool :=
+  match findDesc cur dv.devIdx dv.num with
+  | some d => (lookupFieldNum m.num d.name).isNone && valueOK d.bt false dv.value && !oneElemArray dv.value &&
+      !(d.units == degreesTxt && d.bt == btSint32) && csvNorm dv.value == dv.value
+  | none => false
+
+/-- the developer fields of a file, message by message: each described EARLIER in the same file -/
+def devsWalk : List Desc → List Message → Bool
+  | _, [] => true
+  | cur, m :: ms =>
+    m.devFields.all (devFieldScopeB cur m) && devsWalk (if m.num == mnFieldDescription then cur ++ [descOf m] else cur) ms
+
 /-- developer fields of the file: described earlier in the same file, names non-empty, unique within the file, not
-the name of a native field of the message nor an "unknown…" name; values of the described base type -/
+the name of a native field of the message, of a sub-field, nor an "unknown…" name; values of the described base type -/
 def devsOK (file : List Message) : Bool :=
   let ds := descsOf file
-  ds.all (fun d => !d.name.isEmpty && !isPrefixOf' unknownTxt d.name && commasIn d.name == 0 && commasIn d.units == 0 &&
-    d.name.all keepByte && d.units.all keepByte) &&   -- `|` joins the parts of a name
-  (ds.map (·.name)).eraseDups.length == ds.length &&
-  (ds.map fun d => (d.devIdx, d.num)).eraseDups.length == ds.length &&
-  file.all fun m => m.devFields.all fun dv =>
-    match findDesc ds dv.devIdx dv.num with
-    | some d => (lookupFieldNum m.num d.name).isNone && valueOK d.bt false dv.value && !oneElemArray dv.value &&
-        !(d.units == degreesTxt && d.bt == btSint32)
-    | none => false
-
-/-- the property's own condition: no field written in the file (not flagged as expanded) is the expansion target of a
-component of another field present in the same message — components of the field itself or of any of its sub-fields,
-which is what the reader's `removeExpandedComponents` looks at -/
-def targetsClear (m : Message) : Bool :=
-  let targets := m.fields.flatMap fun f =>
-    match pfield m.num (fieldNumOf f) with
-    | some p => p.comps ++ p.subs.flatMap (·.comps)
-    | none => []
-  m.fields.all fun f => f.isExpanded || !targets.contains (fieldNumOf f)
-
-/-- `CsvUnambiguous`: every file starts with its only file_id; field values as the decoder produces them, strings within
-the safe alphabet, arrays non-empty; developer fields as `devsOK`; no position in degrees (arithmetic) -/
-def csvUnambiguousB (o : Opts) (files : List (List Message)) : Bool :=
-  !o.degrees &&
-  files.all fun file =>
-    (match file with
-     | m :: rest => m.num == mnFileId && rest.all (·.num != mnFileId)
-     | [] => false) &&
-    file.all (fun m => m.fields.all (fieldOK m) && targetsClear m) && devsOK file
+  ds.all descScopeB && nodupB (ds.map (·.name)) && nodupB (ds.map fun d => (d.devIdx, d.num)) && devsWalk [] file
 
 /-- what a message is expected to come back as (as written, before the decoder expands components again): without its
 expanded component fields and — unless verbose — without unknown fields; nothing for an unknown message unless verbose,
@@ -109,6 +138,45 @@ def expectedMesg (o : Opts) (m : Message) : Option Message :=
   if fs.isEmpty && m.devFields.isEmpty then none else some { m with fields := fs }
 
 def expected (o : Opts) (files : List (List Message)) : List (List Message) := files.map (·.filterMap (expectedMesg o))
+
+/-- the encoder's validator, which `CSVToFITConv` hands every sequence to, asks for the developer data index of a
+developer field to be announced by a developer_data_id message EARLIER IN THE SAME SEQUENCE: the indexes collected from
+the messages that come back (`expectedMesg`), message by message -/
+def idsWalkB (o : Opts) : List Nat → List Message → Bool
+  | _, [] => true
+  | ids, m :: ms =>
+    match expectedMesg o m with
+    | some m' =>
+      let ids' := if m'.num == mnDeveloperDataId then ids ++ [u8Of (fvalFirst m'.fields 3)] else ids
+      m'.devFields.all (fun d => ids'.contains d.devIdx) && idsWalkB o ids' ms
+    | none => idsWalkB o ids ms
+
+/-- what the encoder's gate needs beyond well-typed values: something of the file comes back (an empty sequence is an
+encoder error), developer data indexes announced -/
+def gateScopeB (o : Opts) (file : List Message) : Bool :=
+  !(file.filterMap (expectedMesg o)).isEmpty && idsWalkB o [] file
+
+/-- `CsvUnambiguous`: every file starts with its only file_id; every message as `mesgScopeB` (field values as the
+decoder produces them and in its normal form, strings within the safe alphabet, arrays non-empty, field numbers distinct,
+expanded flags = component targets); developer fields as `devsOK`; what the encoder's gate needs (`gateScopeB`). Every option: raw, verbose, trim, degrees. -/
+def csvUnambiguousB (o : Opts) (files : List (List Message)) : Bool :=
+  files.all fun file =>
+    (match file with
+     | m :: rest => m.num == mnFileId && rest.all (·.num != mnFileId)
+     | [] => false) &&
+    file.all mesgScopeB && devsOK file && gateScopeB o file
+
+/-- which conjunct of `csvUnambiguousB` fails first (evidence: the driver counts the reasons) -/
+def csvScopeWhy (o : Opts) (files : List (List Message)) : String :=
+  if !(files.all fun file => match file with | m :: rest => m.num == mnFileId && rest.all (·.num != mnFileId) | [] => false) then "file-shape" else
+  if !(files.all fun file => file.all fun m => m.fields.all (fun f => plainField f && decide (fieldNumOf f < 256) && fieldOK m f)) then "field-value" else
+  if !(files.all fun file => file.all fun m => m.fields.all (fun f => csvNorm f.value == f.value)) then "normal-form" else
+  if !(files.all fun file => file.all fun m => decide (m.num < 65536) && nodupB (m.fields.map fieldNumOf)) then "field-dup" else
+  if !(files.all fun file => file.all targetsExact) then "targets" else
+  if !(files.all fun file => (descsOf file).all descScopeB) then "desc" else
+  if !(files.all fun file => nodupB ((descsOf file).map (·.name)) && nodupB ((descsOf file).map fun d => (d.devIdx, d.num))) then "desc-dup" else
+  if !(files.all fun file => devsWalk [] file) then "dev-field" else
+  if !(files.all fun file => gateScopeB o file) then "gate" else "in"
 
 /-! ### classes of the known findings -/
 
@@ -139,7 +207,7 @@ def hasScaledFloatDev (files : List (List Message)) : Bool :=
 /-- KF-C19-4: a message number of the manufacturer-range marks: `MesgNum.String()` names it but the reader's lookup
 leaves numbers ≥ MfgRangeMin out and the name has no digits -/
 def hasMfgRangeName (files : List (List Message)) : Bool :=
-  files.any fun file => file.any fun m => m.num ≥ mfgRangeMin && !isUnknownMesg m.num
+  files.any fun file => file.any fun m => m.num ≥ mfgRangeMin && (mesgNames.lookup m.num).isSome
 
 /-- KF-C19-3: a later file of a chain describes a (developer data index, field number) pair again, differently -/
 def redefinesDesc (files : List (List Message)) : Bool :=
